@@ -57,6 +57,13 @@ THEOREMS = [
     'C04.onSiteTol_zero', 'C04.checkSettingBasis_zero',
     'C04.resolveSetting_unchecked', 'C04.resolveSetting_explicit', 'C04.resolveSetting_t2', 'C04.resolveSetting_t1',
     'C04.resolveSetting_t_refuses',
+    # round 5 (Proofs/C04_Orient.lean). the ORIENTATION / handedness of the description does not matter: relative
+    # coordinates, the replicas of supersize, the kept / dropped decisions of rotate, the identity shortcut, the count test
+    # and its refusals are those of the same cell written in any other Cartesian frame (rotated, mirrored = left-handed,
+    # axes permuted); the result is the re-framed result
+    'C04.relToCart_reframe', 'C04.cartToRel_reframe', 'C04.newVects_reframe', 'C04.kept_reframe', 'C04.superBox_reframe',
+    'C04.replicaPos_reframe', 'C04.supersizeAtoms_reframe', 'C04.wrapAtom_reframe', 'C04.rotateIdentity_reframe',
+    'C04.rotateRaw_reframe', 'C04.rotate_reframe',
 ]
 PARTIAL = {
     'normalize_after_rotate': 'the final normalize step (rebuild the box LAMMPS-compatible, flip a left-handed cell, '
